@@ -203,7 +203,7 @@ StringDictionaryRPHTFC::StringDictionaryRPHTFC(IteratorDictString *it,
     uchar *tmp = new uchar[4 * maxlength];
 
     size_t reservedStrings = MEMALLOC * bucketsize;
-    textStrings = new uchar[reservedStrings];
+    textStrings = new uchar[reservedStrings]();
     bytesStrings = 0;
     textStrings[bytesStrings] = 0;
 
@@ -335,6 +335,11 @@ StringDictionaryRPHTFC::StringDictionaryRPHTFC(IteratorDictString *it,
 
     maxcomplength +=
         4; // The value is increased because advanced readings in decoding...
+
+    // Decoding reads up to maxcomplength bytes from the beginning of a header:
+    // the text must be followed by, at least, that number of zeroed bytes
+    while ((bytesStrings + maxcomplength) > reservedStrings)
+      reservedStrings = Reallocate(&textStrings, reservedStrings);
   }
 
   tableHT = builderHT->getTable();
@@ -593,7 +598,10 @@ StringDictionary *StringDictionaryRPHTFC::load(std::istream &in) {
   dict->bucketsize = loadValue<uint32_t>(in);
 
   dict->bytesStrings = loadValue<uint64_t>(in);
-  dict->textStrings = loadValue<uchar>(in, dict->bytesStrings);
+  // Decoding reads up to maxcomplength bytes from the beginning of a header:
+  // the text is followed by that number of zeroed bytes
+  dict->textStrings = new uchar[dict->bytesStrings + dict->maxcomplength]();
+  in.read((char *)dict->textStrings, dict->bytesStrings);
   dict->blStrings = new LogSequence(in);
 
   dict->codewordsHT = loadValue<Codeword>(in, 256);
